@@ -330,7 +330,114 @@ def r13_6(chk):
     chk.floor("R13.6", 2, "two stores")
 
 
+TABLE_CONSTS = ("_MD5_TABLE", "_NOT_COMPLETED_TABLE", "_LOG_TABLE")
+
+
+def _table_effects(fn):
+    """{('w'|'u', table constant)}: files of which store table the function opens for writing / unlinks.
+    A path expression belongs to a table when it (or a local it derives from) mentions the table constant."""
+    from .. import defuse as D
+
+    by_table = {}
+    for tconst in TABLE_CONSTS:
+        names = set()
+        changed = True
+        binds = list(D.assignments(fn))
+        while changed:
+            changed = False
+            for tg, v, _ in binds:
+                if any(isinstance(n, ast.Name) and (n.id == tconst or n.id in names) for n in ast.walk(v)):
+                    for t in tg:
+                        for nm in ast.walk(t):
+                            if isinstance(nm, ast.Name) and nm.id not in names:
+                                names.add(nm.id)
+                                changed = True
+        by_table[tconst] = names
+    eff = set()
+    for c in walk_no_nested(fn):
+        if not isinstance(c, ast.Call):
+            continue
+        nm = (call_name(c) or "").split(".")[-1]
+        for tconst, names in by_table.items():
+            def mentions(e):
+                return any(isinstance(n, ast.Name) and (n.id == tconst or n.id in names) for n in ast.walk(e))
+            if nm in ("open_", "open") and c.args and mentions(c.args[0]) and any(isinstance(a, ast.Constant) and isinstance(a.value, str) and a.value[:1] in ("w", "a", "x") for a in list(c.args[1:]) + [k.value for k in c.keywords if k.arg == "mode"]):
+                eff.add(("w", tconst))
+            if nm in ("write_text", "write_bytes") and isinstance(c.func, ast.Attribute) and mentions(c.func.value):
+                eff.add(("w", tconst))
+            if nm in ("unlink", "remove") and ((isinstance(c.func, ast.Attribute) and mentions(c.func.value)) or any(mentions(a) for a in c.args)):
+                eff.add(("u", tconst))
+    return eff
+
+
+def r13_7(chk):
+    chk.rule("R13.7", "within one public write of DataStoreDirectory no helper that unlinks files of a store table (md5, not_completed, log) runs after a helper that wrote a file into the same table for the same identifier: the checksum of a record and of the not-completed record it replaces share one file name, so retiring after writing deletes the checksum just written")
+    m = chk.repo.module(DS)
+    ci = m.cls("DataStoreDirectory")
+    helper_eff = {}
+    for name, fn in ci.methods.items():
+        if isinstance(fn, ast.FunctionDef):
+            helper_eff[name] = _table_effects(fn)
+    if ("w", "_MD5_TABLE") not in helper_eff.get("_write", set()) or ("u", "_MD5_TABLE") not in helper_eff.get("drop_not_completed", set()):
+        raise AnalysisError(f"R13.7: effect extraction lost the md5 effects of _write / drop_not_completed: {helper_eff.get('_write')} {helper_eff.get('drop_not_completed')}")
+    n = 0
+    for meth in ("write", "write_not_completed", "write_log"):
+        fn = ci.methods.get(meth)
+        if not isinstance(fn, ast.FunctionDef):
+            raise AnalysisError(f"DataStoreDirectory.{meth} vanished")
+        calls = [c for c in walk_no_nested(fn) if isinstance(c, ast.Call) and isinstance(c.func, ast.Attribute) and norm(c.func.value) == "self" and c.func.attr in helper_eff]
+        calls.sort(key=lambda c: (c.lineno, c.col_offset))
+        bad = []
+        for i, ci_ in enumerate(calls):
+            for cj in calls[i + 1 :]:
+                for kind, tb in helper_eff[ci_.func.attr]:
+                    if kind == "w" and ("u", tb) in helper_eff[cj.func.attr]:
+                        bad.append((ci_, cj, tb))
+        n += 1
+        k = key(m, f"DataStoreDirectory.{meth}", "no unlink after write in one table")
+        if bad:
+            a, b, tb = bad[0]
+            chk.violation("R13.7", k, m.loc(b), f"`self.{b.func.attr}(...)` unlinks files of {tb} after `self.{a.func.attr}(...)` (line {a.lineno}) wrote one there under the same stem: write_not_completed('a') then write('a') leaves md5('a') == None")
+        else:
+            chk.ok("R13.7", k, m.loc(fn), f"helpers in order: {[c.func.attr for c in calls]}")
+    chk.floor("R13.7", 3, "three public writes")
+
+
+def _cache_touch(fn, attr, methods, depth=2):
+    """how the function adjusts the member cache self.<attr>: 'reset' (assigned), 'remove', 'append-guarded', 'append', through self-calls too"""
+    kinds = set()
+    for st in walk_no_nested(fn):
+        if isinstance(st, ast.Assign) and any(norm(t) == f"self.{attr}" for t in st.targets):
+            kinds.add("reset")
+        if isinstance(st, ast.Call) and isinstance(st.func, ast.Attribute) and norm(st.func.value) == f"self.{attr}":
+            if st.func.attr == "remove":
+                kinds.add("remove")
+            if st.func.attr == "append":
+                guarded = any(isinstance(i, ast.If) and re.search(rf"not in self\.{attr}\b", norm(i.test)) and any(n is st for n in ast.walk(i)) for i in walk_no_nested(fn))
+                kinds.add("append-guarded" if guarded else "append")
+        if depth and isinstance(st, ast.Call) and isinstance(st.func, ast.Attribute) and norm(st.func.value) == "self" and isinstance(methods.get(st.func.attr), ast.FunctionDef):
+            kinds |= _cache_touch(methods[st.func.attr], attr, methods, depth - 1)
+    return kinds
+
+
+def r13_8(chk):
+    chk.rule("R13.8", "DataStoreSqlite keeps two member lists over one table whose rows can change class (the UPDATE branch rewrites is_completed): each public record write adjusts BOTH lists -- the list of the class written gains the member at most once (append under a `not in` test) and the other list loses it (remove / reset) -- otherwise len(store), iteration and membership disagree with the database")
+    m = chk.repo.module(SQ)
+    ci = m.cls("DataStoreSqlite")
+    for meth, gains, loses in (("write", "_completed", "_not_completed"), ("write_not_completed", "_not_completed", "_completed")):
+        fn = ci.methods.get(meth)
+        if not isinstance(fn, ast.FunctionDef):
+            raise AnalysisError(f"DataStoreSqlite.{meth} vanished")
+        g = _cache_touch(fn, gains, ci.methods)
+        l = _cache_touch(fn, loses, ci.methods)
+        chk.decide("append-guarded" in g and "append" not in g, "R13.8", key(m, f"DataStoreSqlite.{meth}", f"{gains} gains the member once"), m.loc(fn), f"self.{gains}: {sorted(g)}", f"self.{gains} is adjusted by {sorted(g) or 'nothing'}: the member is appended without a membership test (or not at all), so repeated writes of one identifier list it several times")
+        chk.decide(bool(l & {"remove", "reset"}), "R13.8", key(m, f"DataStoreSqlite.{meth}", f"{loses} loses the member"), m.loc(fn), f"self.{loses}: {sorted(l)}", f"self.{loses} is not adjusted: a record that changes class stays listed in both lists (write('a') then write_not_completed('a') gives completed == not_completed == ['a'])")
+    chk.floor("R13.8", 4, "two writes x two lists")
+
+
 def run(chk):
+    r13_7(chk)
+    r13_8(chk)
     r13_6(chk)
     r13_1(chk)
     r13_2(chk)
